@@ -43,7 +43,28 @@ def str_binop(it, op, a, b):
         if ops._plain(b) if not isinstance(b, dict) else all(
                 ops._plain(v) for v in b.values()):
             return it.host_call(lambda: a % b)
-        return check_percent(it, a, args)
+        r = check_percent(it, a, args)
+        # a format made of literal text and plain %s of str values is their
+        # concatenation
+        if isinstance(args, tuple) and all(
+                isinstance(v, (str, SStr)) for v in args):
+            import re as _re
+            pieces = _re.split(r'(%s|%%)', a)
+            if not any('%' in p for p in pieces if p not in ('%s', '%%')) \
+                    and pieces.count('%s') == len(args):
+                out, k = [], 0
+                for p in pieces:
+                    if p == '%s':
+                        out.append(zstr(args[k]))
+                        k += 1
+                    elif p == '%%':
+                        out.append(z3.StringVal('%'))
+                    elif p:
+                        out.append(z3.StringVal(p))
+                if not out:
+                    return ''
+                return mk_str(z3.Concat(*out) if len(out) > 1 else out[0])
+        return r
     if op is ast.Mod and isinstance(a, OpaqueStr):
         return OpaqueStr('percent', (a, b))
     if op is ast.Add:
